@@ -1,11 +1,229 @@
 /-
-  C07 — Part 3 of the Impl model: line formats of the state-listing built-ins and how a fresh shell reads
-  them back (placeholder; filled in below).
+  C07 — Part 3 of the Impl model: line formats of the state-listing built-ins as functions of
+  (name, value, attributes), transcribed from
+
+    yash-builtin/src/alias/semantics.rs        `print`            `<name>=<value>`
+    yash-builtin/src/typeset/print_variables.rs `print_one`        `typeset [-r ][-x ][-- ]<name>=<value>` …
+    yash-builtin/src/export.rs / readonly.rs    `PRINT_CONTEXT`    (no option letters, builtin significant)
+    yash-builtin/src/set.rs                     `PrintVariables`   `<name>=<value>` for identifier names
+    yash-builtin/src/trap.rs                    `display_trap`     `trap -- <action> <COND>`
+    yash-builtin/src/umask.rs                   `Show{symbolic:false}`  three octal digits
+    yash-env/src/variable/value.rs              `QuotedValue`      scalar / `(v1 v2 …)`
+
+  together with the (simple) effect of the definition commands of a history on the listed state, so that
+  the driver can predict the exact text the real built-ins print, and `entryOk…` = the listing re-read by
+  the model lexer yields the words that recreate the entry.
 -/
 import YashModel.Common.Proto
 import YashModel.Quote.Model
 namespace YashModel.Quote.Listing
+open YashModel.Quote YashModel.Proto
 
-def runL (_ : List String) : String := "bad-case\t-"
+inductive VarVal
+  | none
+  | scalar (s : List Char)
+  | array (vs : List (List Char))
+  deriving DecidableEq, Repr
+
+structure Var where
+  name : List Char
+  value : VarVal
+  exported : Bool
+  readonly : Bool
+  deriving DecidableEq, Repr
+
+structure State where
+  vars : List Var := []
+  aliases : List (List Char × List Char) := []
+  traps : List (String × List Char) := []     -- condition name ↦ action (`[]` = ignore)
+  umask : Nat := 0
+
+/-! ### definition commands -/
+
+def upsertVar (vs : List Var) (name : List Char) (f : Option Var → Var) : List Var :=
+  match vs.find? (·.name = name) with
+  | some old => vs.map fun v => if v.name = name then f (some old) else v
+  | none => vs ++ [f none]
+
+/-- `typeset [-x] [-r] name=value` -/
+def State.setScalar (s : State) (name value : List Char) (x r : Bool) : State :=
+  { s with vars := upsertVar s.vars name fun o =>
+      { name, value := .scalar value, exported := x || (o.map (·.exported)).getD false,
+        readonly := r || (o.map (·.readonly)).getD false } }
+
+/-- `typeset [-x] [-r] name` : attributes only; an existing value stays -/
+def State.declare (s : State) (name : List Char) (x r : Bool) : State :=
+  { s with vars := upsertVar s.vars name fun o =>
+      { name, value := (o.map (·.value)).getD .none, exported := x || (o.map (·.exported)).getD false,
+        readonly := r || (o.map (·.readonly)).getD false } }
+
+/-- `name=(v1 v2 …)` then `typeset [-x] [-r] name` -/
+def State.setArray (s : State) (name : List Char) (vals : List (List Char)) (x r : Bool) : State :=
+  { s with vars := upsertVar s.vars name fun o =>
+      { name, value := .array vals, exported := x || (o.map (·.exported)).getD false,
+        readonly := r || (o.map (·.readonly)).getD false } }
+
+def State.setAlias (s : State) (name value : List Char) : State :=
+  { s with aliases := (s.aliases.filter (·.1 ≠ name)) ++ [(name, value)] }
+
+/-- `trap -- action COND` (`-` resets to the default action) -/
+def State.setTrap (s : State) (cond : String) (action : List Char) : State :=
+  let rest := s.traps.filter (·.1 ≠ cond)
+  { s with traps := if action = ['-'] then rest else rest ++ [(cond, action)] }
+
+/-! ### printers -/
+
+/-- Rust `str` ordering (bytewise UTF-8 = by scalar values) -/
+def ltName : List Char → List Char → Bool
+  | [], [] => false
+  | [], _ :: _ => true
+  | _ :: _, [] => false
+  | a :: as, b :: bs => a.toNat < b.toNat || (a = b && ltName as bs)
+
+def insertBy {α} (key : α → List Char) (x : α) : List α → List α
+  | [] => [x]
+  | y :: ys => if ltName (key x) (key y) then x :: y :: ys else y :: insertBy key x ys
+
+def sortBy {α} (key : α → List Char) (l : List α) : List α := l.foldr (insertBy key) []
+
+/-- `QuotedValue` of an array: `(v1 v2 …)` -/
+def quoteArray (vs : List (List Char)) : List Char :=
+  '(' :: ((" ".toList).intercalate (vs.map quote) ++ [')'])
+
+/-- `separator` of `print_one` -/
+def sepOf (name : List Char) : List Char := if name.head? = some '-' then "-- ".toList else []
+
+/-- `AttributeOption` for `typeset` (`ALL_OPTIONS` order: `-r` before `-x`) -/
+def typesetOpts (v : Var) : List Char :=
+  (if v.readonly then "-r ".toList else []) ++ (if v.exported then "-x ".toList else [])
+
+/-- `print_one` of print_variables.rs -/
+def printVar (builtin : String) (opts : Var → List Char) (significant : Bool) (v : Var) : List Char :=
+  if v.name.contains '=' then []
+  else
+    let head := builtin.toList ++ [' '] ++ opts v ++ sepOf v.name ++ quote v.name
+    match v.value with
+    | .scalar s => head ++ ['='] ++ quote s ++ ['\n']
+    | .array vs =>
+      quote v.name ++ ['='] ++ quoteArray vs ++ ['\n']
+        ++ (if !(opts v).isEmpty || significant then head ++ ['\n'] else [])
+    | .none => head ++ ['\n']
+
+def listTypeset (s : State) : List Char :=
+  ((sortBy (·.name) s.vars).map (printVar "typeset" typesetOpts false)).flatten
+def listExport (s : State) : List Char :=
+  ((sortBy (·.name) (s.vars.filter (·.exported))).map (printVar "export" (fun _ => []) true)).flatten
+def listReadonly (s : State) : List Char :=
+  ((sortBy (·.name) (s.vars.filter (·.readonly))).map (printVar "readonly" (fun _ => []) true)).flatten
+
+/-- `is_name` (= `is_portable_name`) -/
+def isName (n : List Char) : Bool :=
+  match n with
+  | [] => false
+  | c :: _ => !c.isDigit && n.all isNameChar
+
+/-- `set` without operands -/
+def printSet (v : Var) : List Char :=
+  match v.value with
+  | .scalar s => v.name ++ ['='] ++ quote s ++ ['\n']
+  | .array vs => v.name ++ ['='] ++ quoteArray vs ++ ['\n']
+  | .none => []
+def listSet (s : State) : List Char :=
+  ((sortBy (·.name) (s.vars.filter (isName ·.name))).map printSet).flatten
+
+/-- `alias` without operands -/
+def printAlias (a : List Char × List Char) : List Char := quote a.1 ++ ['='] ++ quote a.2 ++ ['\n']
+def listAlias (s : State) : List Char := ((sortBy (·.1) s.aliases).map printAlias).flatten
+
+/-- conditions in the order of `Condition::iter` on the virtual system (those the harness uses) -/
+def condOrder : List String := ["EXIT", "HUP", "INT", "QUIT", "TERM", "USR1", "USR2"]
+
+def printTrap (t : String × List Char) : List Char :=
+  "trap -- ".toList ++ quote t.2 ++ [' '] ++ t.1.toList ++ ['\n']
+def listTrap (s : State) : List Char :=
+  (condOrder.filterMap fun c => (s.traps.find? (·.1 = c)).map printTrap).flatten
+
+def octal3 (n : Nat) : List Char :=
+  [Char.ofNat (48 + n / 64 % 8), Char.ofNat (48 + n / 8 % 8), Char.ofNat (48 + n % 8)]
+def listUmask (s : State) : List Char := octal3 s.umask ++ ['\n']
+
+/-! ### reading an entry back (what the listing means to a fresh shell) -/
+
+def dropNl (l : List Char) : List Char := if l.getLast? = some '\n' then l.dropLast else l
+
+/-- words of the option part, e.g. `"-r -x -- "` ↦ `["-r", "-x", "--"]` -/
+def optWords (v : Var) (opts : Var → List Char) : List (List Char) :=
+  (((String.ofList (opts v ++ sepOf v.name)).splitOn " ").filter (· ≠ "")).map String.toList
+
+/-- the command line(s) of a variable entry read back by the model lexer are exactly the words that
+    recreate the entry (arguments of a declaration utility: `readBackDecl`) -/
+def varEntryOk (builtin : String) (opts : Var → List Char) (significant : Bool) (v : Var) : Bool :=
+  if v.name.contains '=' then true
+  else
+    let pre := optWords v opts
+    let args (line : List Char) := line.drop (builtin.length + 1)   -- what follows the utility name
+    let attrLine := readBackDecl (opts v ++ sepOf v.name ++ quote v.name) == some (pre ++ [v.name])
+    match v.value with
+    | .scalar s =>
+      readBackDecl (args (dropNl (printVar builtin opts significant v))) == some (pre ++ [v.name ++ ['='] ++ s])
+    | .array vs =>
+      readBack ((" ".toList).intercalate (vs.map quote)) == some vs
+        && readBack (quote v.name) == some [v.name]
+        && (!(!(opts v).isEmpty || significant) || attrLine)
+    | .none => attrLine
+
+def aliasEntryOk (a : List Char × List Char) : Bool :=
+  readBack ("alias -- ".toList ++ dropNl (printAlias a)) == some ["alias".toList, "--".toList, a.1 ++ ['='] ++ a.2]
+
+def trapEntryOk (t : String × List Char) : Bool :=
+  readBack (dropNl (printTrap t)) == some ["trap".toList, "--".toList, t.2, t.1.toList]
+
+def setEntryOk (v : Var) : Bool :=
+  match v.value with
+  | .scalar s => readBack (dropNl (printSet v)) == some [v.name ++ ['='] ++ s] && readBack (quote s) == some [s]
+  | .array vs => readBack ((" ".toList).intercalate (vs.map quote)) == some vs
+  | .none => true
+
+/-- Spec verdict on a state: every listed entry re-reads as the words that recreate it -/
+def stateVerdict (s : State) : String :=
+  if !(s.aliases.all aliasEntryOk) then "FAIL:A:entry-does-not-reread"
+  else if !(s.vars.all (varEntryOk "typeset" typesetOpts false)) then "FAIL:V:entry-does-not-reread"
+  else if !((s.vars.filter (·.exported)).all (varEntryOk "export" (fun _ => []) true)) then "FAIL:X:entry-does-not-reread"
+  else if !((s.vars.filter (·.readonly)).all (varEntryOk "readonly" (fun _ => []) true)) then "FAIL:R:entry-does-not-reread"
+  else if !((s.vars.filter (isName ·.name)).all setEntryOk) then "FAIL:S:entry-does-not-reread"
+  else if !(s.traps.all trapEntryOk) then "FAIL:T:entry-does-not-reread"
+  else "ok"
+
+/-! ### driver part -/
+
+def decHexList (t : String) : Option (List (List Char)) :=
+  if t = "." then some [] else (t.splitOn ",").mapM decChars
+
+def applyOp (s : State) (op : String) : Option State :=
+  match op.splitOn ":" with
+  | ["v", n, v, a] => do
+    pure (s.setScalar (← decChars n) (← decChars v) (a.contains 'x') (a.contains 'r'))
+  | ["n", n, a] => do pure (s.declare (← decChars n) (a.contains 'x') (a.contains 'r'))
+  | ["a", n, vs, a] => do pure (s.setArray (← decChars n) (← decHexList vs) (a.contains 'x') (a.contains 'r'))
+  | ["l", n, v] => do pure (s.setAlias (← decChars n) (← decChars v))
+  | ["lg", n, v] => do pure (s.setAlias (← decChars n) (← decChars v))
+  | ["t", c, a] => do pure (s.setTrap c (← decChars a))
+  | ["m", m] =>
+    match m.toList.map (fun c => c.toNat - 48) with
+    | [a, b, c] => some { s with umask := a * 64 + b * 8 + c }
+    | _ => none
+  | ["o", _, _] => some s
+  | [k, _, _] => if k = "f" || k = "fq" || k = "fk" then some s else none
+  | _ => none
+
+/-- the umask a fresh virtual shell starts with (`Mode::default()` of the virtual system) -/
+def initialUmask : Nat := 0o644
+
+def runL (ops : List String) : String :=
+  match ops.foldlM applyOp ({ umask := initialUmask } : State) with
+  | none => "bad-case\t-"
+  | some s =>
+    let e (l : List Char) := encChars l
+    s!"A={e (listAlias s)} V={e (listTypeset s)} X={e (listExport s)} R={e (listReadonly s)} S={e (listSet s)} T={e (listTrap s)} U={e (listUmask s)}\t{stateVerdict s}"
 
 end YashModel.Quote.Listing
